@@ -356,11 +356,11 @@ def eval_numpy(part: Part, inst: Inst):
         return
     back = enc.astype(np.int64)
     badi = np.nonzero(back != raws)[0]
-    for i in badi[:1]:
+    for i in badi[:3]:
         part.violation("inverse", site, wit(raws[i]), f"decode({int(raws[i])}) = {float(dec[i])!r} re-encodes to {int(back[i])} "
                                                       f"({len(badi)} of {n} raw values differ)")
-    for _ in badi[1:]:
-        part.violation("inverse", site, wit(raws[badi[0]]), "")
+    if len(badi) > 3:
+        part.count(f"failing:inverse@{site}", len(badi) - 3)
     mono = np.nonzero(~(np.diff(dec) > 0))[0]
     for i in mono[:1]:
         part.violation("monotonic", site, wit(raws[i + 1]), f"decode({int(raws[i])}) = {float(dec[i])!r} but decode({int(raws[i + 1])}) = {float(dec[i + 1])!r}")
@@ -413,6 +413,31 @@ def eval_numpy(part: Part, inst: Inst):
     part.outcome((tag, first, last, tuple(zeros), len(badi)))
 
 
+class WPart(Part):
+    """Part that keeps up to three witnesses with *distinct* (raw, duration) per (clause, site), lowest raw first within a
+    sweep, so a known finding pinned to one raw value (witness_regex) cannot mask other failing raw values at the same site."""
+
+    def __init__(self):
+        super().__init__()
+        self.multi: Dict[tuple, list] = {}
+
+    def violation(self, clause, site, witness, detail=""):
+        key = (clause, site)
+        self.count(f"failing:{clause}@{site}")  # total failing evaluations (Run.merge would drop witnesses if counts rode on "n")
+        wk = (witness.get("raw"), witness.get("duration")) if isinstance(witness, dict) else None
+        lst = self.multi.setdefault(key, [])
+        if len(lst) < 3 and all(e["_wk"] != wk for e in lst):
+            lst.append({"clause": clause, "site": site, "witness": witness, "detail": str(detail)[:2000], "n": 1, "_wk": wk})
+
+    def flat(self) -> List[dict]:
+        return [{k: v for k, v in e.items() if k != "_wk"} for lst in self.multi.values() for e in lst]
+
+    def dump(self):
+        d = super().dump()
+        d["violations"] = self.flat()
+        return d
+
+
 _INSTS: List[Inst] = []
 
 
@@ -431,7 +456,7 @@ def _supported(inst: Inst) -> Optional[str]:
 def _eval_unit(unit) -> dict:
     idx, duration, wire = unit
     inst = _INSTS[idx]
-    part = Part()
+    part = WPart()
     if inst.kind in ("qfloat", "qctx"):
         eval_scalar(part, inst, duration, wire)
     elif inst.kind == "fixed":
@@ -499,7 +524,7 @@ def run(run: Run):
     ]
     run.coverage_extra.update({"instances_found": sum(i.n for i in _INSTS), "distinct_parameterisations": len(_INSTS),
                                "sites": listing, "durations": len(durs), "units": len(units),
-                               "violating_raw_counts": {f"{k[0]}@{k[1]}": n for k, n in sorted(run._viol_keys.items())}})
+                               "failing_evaluations": {k[8:]: n for k, n in sorted(run.counters.items()) if k.startswith("failing:")}})
 
 
 def replay(w):
@@ -509,7 +534,7 @@ def replay(w):
         return []
     global _INSTS
     _INSTS = insts
-    part = Part()
+    part = WPart()
     d = w.get("duration")
     if inst.kind in ("qfloat", "qctx"):
         eval_scalar(part, inst, d, True)
@@ -517,4 +542,4 @@ def replay(w):
         eval_fixed(part, inst)
     else:
         eval_numpy(part, inst)
-    return list(part.viol.values())
+    return part.flat()
